@@ -4,7 +4,9 @@ import (
 	"bufio"
 	"bytes"
 	"crypto"
+	"crypto/sha1"
 	"crypto/x509"
+	"encoding/asn1"
 	"encoding/binary"
 	"fmt"
 	"io"
@@ -403,6 +405,76 @@ func p7OptionalFields(c *Ctx, blob []byte, rot, stride int, allNodes bool, emit 
 	}
 }
 
+// p7SignerIdentifierForms emits the blob with every signer entry's version field set to each CMSVersion value 0..5
+// crossed with each form the sid (SignerIdentifier) field can take: the issuerAndSerialNumber SEQUENCE as it is, the
+// [0] subjectKeyIdentifier alternative of RFC 5652 section 5.3 (IMPLICIT, primitive: the key identifier octets; with
+// the key identifier of the verifying certificate, with an empty one), the same tag in constructed form holding an
+// OCTET STRING, and no sid at all. The RFC ties version 3 to the key-identifier form and version 1 to issuer and
+// serial; an untrusted blob can carry any combination, and whatever the parser accepts the verifier must cope with.
+func p7SignerIdentifierForms(blob, keyID []byte, emit func(class string, b []byte)) {
+	roots, ok := parseDER(blob)
+	if !ok || len(roots) == 0 {
+		return
+	}
+	forms := []struct {
+		name string
+		sid  func(old *derNode) *derNode // nil result: the field is left out
+	}{
+		{"issuer-and-serial", func(old *derNode) *derNode { return old }},
+		{"subject-key-identifier", func(*derNode) *derNode { return &derNode{tag: 0x80, leaf: append([]byte{}, keyID...)} }},
+		{"subject-key-identifier-empty", func(*derNode) *derNode { return &derNode{tag: 0x80} }},
+		{"subject-key-identifier-constructed", func(*derNode) *derNode {
+			return &derNode{tag: 0xa0, compound: true, kids: []*derNode{{tag: 0x04, leaf: append([]byte{}, keyID...)}}}
+		}},
+		{"absent", func(*derNode) *derNode { return nil }},
+	}
+	for v := 0; v <= 5; v++ {
+		for _, f := range forms {
+			r := roots[0].clone()
+			sd := p7SignedDataOf(r)
+			if len(sd.kids) < 4 || sd.kids[len(sd.kids)-1].tag != 0x31 || len(sd.kids[len(sd.kids)-1].kids) == 0 {
+				return
+			}
+			done := false
+			for _, si := range sd.kids[len(sd.kids)-1].kids {
+				if !si.compound || len(si.kids) < 2 || si.kids[0].tag != 0x02 {
+					continue
+				}
+				si.kids[0].leaf = []byte{byte(v)}
+				if sid := f.sid(si.kids[1]); sid != nil {
+					si.kids[1] = sid
+				} else {
+					si.kids = append(si.kids[:1:1], si.kids[2:]...)
+				}
+				done = true
+			}
+			if done {
+				emit(fmt.Sprintf("signer-identifier/version-%d/%s", v, f.name), r.encode())
+			}
+		}
+	}
+}
+
+// subjectKeyID: the key identifier of a certificate (its subjectKeyIdentifier extension, else the SHA-1 of its
+// subjectPublicKey bits, RFC 5280 section 4.2.1.2 method 1)
+func subjectKeyID(cert *x509.Certificate) []byte {
+	if cert == nil {
+		return bytes.Repeat([]byte{0x5a}, 20)
+	}
+	if len(cert.SubjectKeyId) > 0 {
+		return cert.SubjectKeyId
+	}
+	var spki struct {
+		Alg asn1.RawValue
+		Key asn1.BitString
+	}
+	if _, err := asn1.Unmarshal(cert.RawSubjectPublicKeyInfo, &spki); err != nil {
+		return bytes.Repeat([]byte{0x5a}, 20)
+	}
+	h := sha1.Sum(spki.Key.Bytes)
+	return h[:]
+}
+
 // c13InProcess runs a step of the generator in which the library works on valid inputs in this
 // process. Unlike a worker, a step that never returns cannot be killed: it is reported and the run ends
 // (the process exits with the report while the step is still spinning).
@@ -525,6 +597,7 @@ func c13Gen(c *Ctx) {
 			inTable := func(class string, b []byte) { emit("pe.all", "table-entry/"+class, withTable(si.img, winCert(b))) }
 			forgeries(c, sd, inTable)
 			p7OptionalFields(c, si.sig, i, c.P(2, 1), false, inTable)
+			p7SignerIdentifierForms(si.sig, subjectKeyID(cert), inTable)
 			n := 0
 			mutateBlob(c, si.sig, func(class string, b []byte) {
 				n++
@@ -605,6 +678,8 @@ func c13Gen(c *Ctx) {
 		forgeries(c, s, func(class string, b []byte) { emitP7(class, b) })
 		// quick: a rotating quarter of the contents per blob (all of them for every ninth), element tails for every ninth
 		p7OptionalFields(c, s.blob, i/3, map[bool]int{true: 1, false: c.P(4, 1)}[i%27 == 0], c.Thorough || i%27 == 0, emitP7)
+		// every CMSVersion value of the signer entry x every form of its signer identifier (issuer and serial, [0] key identifier, ...)
+		p7SignerIdentifierForms(s.blob, subjectKeyID(s.right), emitP7)
 		n := 0
 		mutateBlob(c, s.blob, func(class string, b []byte) {
 			n++
@@ -622,7 +697,7 @@ func c13Gen(c *Ctx) {
 
 func init() {
 	register("C13", &PropDef{
-		Rule:   "image entry points (Parse, Signatures, Hash, Bytes, Verify) and signature entry points (ParsePKCS7, ParseAuthenticode, both Verifys) in a sandboxed worker process (address-space limit, per-input timeout, TotalAlloc delta). Images: repository binaries, generated signed images and a generated image with two section headers that declare raw data without a file pointer (PointerToRawData = 0), under sweeps of e_lfanew, SizeOfOptionalHeader, NumberOfSections, NumberOfRvaAndSizes, SizeOfHeaders, section offsets/sizes (incl. overlap, 2^31, 2^32-1), certificate directory address/size beyond the file, WIN_CERTIFICATE dwLength (<8, huge), every ~2% truncation point, random header bytes; the section sweeps cover the first three and the last section header (raw data at / beyond the end of the file included). Signatures inside the certificate table: two signed generated images with their own signature replaced by each derived blob - the targeted forgeries (every object identifier outside the certificates, among them the digest algorithm of the SpcIndirectDataContent DigestInfo, replaced by each of seven siblings (SHA-1/384/512, ...) alone and with a content change; dropped signed attributes; several signer entries; blobs nested inside blobs), the optional fields below, and a fifth of the generic mutations - parsed, listed, hashed (SHA-256 and SHA-1/384/512), re-serialised and verified through PECOFFBinary.Verify with the certificate of the signer. WIN_CERTIFICATEs (certificate-table entries of the signed images, signature blobs in a fresh wrapper, an empty and a GUID-typed one) are read by ReadWinCertificate through 8 kinds of io.Reader (bytes.Reader, bytes.Buffer, bufio.Reader, io.SectionReader, an open os.File, io.Pipe, a reader with no method but Read, a one-byte reader) with dwLength in {0,1,7,8,9,n-1,n,n+1,n+8,2n,2^16,2^20,2^24,2^28,2^31-1,2^31,2^32-8,2^32-1} over the full body and over 0..16 bytes of body, truncations and wrong revisions; the same time/memory oracle, and the decoded fields are compared with the Lean model of the reader for every kind. Signatures: library/fixture/CMS-shaped blobs under bit flips, per-leaf flips, structural DER edits, targeted forgeries (incl. dropped signed attributes, two-signer-entry combinations, and blobs nested inside blobs: unsigned attributes, certificates, CRLs, content, signer entries, trailing fields), oversized and truncated lengths; the OPTIONAL fields of the syntax that the library never writes (unauthenticatedAttributes [1] at the end of every signer entry, crls [1]) holding nothing / a well-formed attribute / ill-shaped readable elements / 200 empty attributes / bytes that are no DER element at all (truncated element, lone zero byte, lone tag, length beyond the input, indefinite and non-minimal length, high tag number, readable then truncated; alone and behind a well-formed attribute) - quick: a rotating quarter of these contents per blob, all of them for every ninth blob; and the same unreadable bytes behind the last child of every constructed element outside the certificates (every ninth blob; thorough: every blob, inside the certificates too); each verified with the certificate its signer entry names and, for a quarter, with a stranger's. Non-trivial: non-empty input; distinct = distinct inputs.",
+		Rule:   "image entry points (Parse, Signatures, Hash, Bytes, Verify) and signature entry points (ParsePKCS7, ParseAuthenticode, both Verifys) in a sandboxed worker process (address-space limit, per-input timeout, TotalAlloc delta). Images: repository binaries, generated signed images and a generated image with two section headers that declare raw data without a file pointer (PointerToRawData = 0), under sweeps of e_lfanew, SizeOfOptionalHeader, NumberOfSections, NumberOfRvaAndSizes, SizeOfHeaders, section offsets/sizes (incl. overlap, 2^31, 2^32-1), certificate directory address/size beyond the file, WIN_CERTIFICATE dwLength (<8, huge), every ~2% truncation point, random header bytes; the section sweeps cover the first three and the last section header (raw data at / beyond the end of the file included). Signatures inside the certificate table: two signed generated images with their own signature replaced by each derived blob - the targeted forgeries (every object identifier outside the certificates, among them the digest algorithm of the SpcIndirectDataContent DigestInfo, replaced by each of seven siblings (SHA-1/384/512, ...) alone and with a content change; dropped signed attributes; several signer entries; blobs nested inside blobs), the optional fields below, and a fifth of the generic mutations - parsed, listed, hashed (SHA-256 and SHA-1/384/512), re-serialised and verified through PECOFFBinary.Verify with the certificate of the signer. WIN_CERTIFICATEs (certificate-table entries of the signed images, signature blobs in a fresh wrapper, an empty and a GUID-typed one) are read by ReadWinCertificate through 8 kinds of io.Reader (bytes.Reader, bytes.Buffer, bufio.Reader, io.SectionReader, an open os.File, io.Pipe, a reader with no method but Read, a one-byte reader) with dwLength in {0,1,7,8,9,n-1,n,n+1,n+8,2n,2^16,2^20,2^24,2^28,2^31-1,2^31,2^32-8,2^32-1} over the full body and over 0..16 bytes of body, truncations and wrong revisions; the same time/memory oracle, and the decoded fields are compared with the Lean model of the reader for every kind. Signatures: library/fixture/CMS-shaped blobs under bit flips, per-leaf flips, structural DER edits, targeted forgeries (incl. dropped signed attributes, two-signer-entry combinations, and blobs nested inside blobs: unsigned attributes, certificates, CRLs, content, signer entries, trailing fields), oversized and truncated lengths; the OPTIONAL fields of the syntax that the library never writes (unauthenticatedAttributes [1] at the end of every signer entry, crls [1]) holding nothing / a well-formed attribute / ill-shaped readable elements / 200 empty attributes / bytes that are no DER element at all (truncated element, lone zero byte, lone tag, length beyond the input, indefinite and non-minimal length, high tag number, readable then truncated; alone and behind a well-formed attribute) - quick: a rotating quarter of these contents per blob, all of them for every ninth blob; and the same unreadable bytes behind the last child of every constructed element outside the certificates (every ninth blob; thorough: every blob, inside the certificates too); every signer entry's version field set to each CMSVersion value 0..5 crossed with each form of its signer identifier (issuerAndSerialNumber as it is, the [0] subjectKeyIdentifier alternative of RFC 5652 5.3 holding the key identifier of the verifying certificate or nothing, the same tag in constructed form, no identifier at all) - for the signature blobs and, inside the certificate table of the signed images, through PECOFFBinary.Verify; each verified with the certificate its signer entry names and, for a quarter, with a stranger's. Non-trivial: non-empty input; distinct = distinct inputs.",
 		Assume: []string{"allocation budget 64 bytes per input byte + 4 MiB; time limit 0.5 s + 1 µs per input byte; an input that got no answer after ten times its limit (at least 5 s) is reported as hanging and the worker is killed; after 3 such inputs the rest of the run is not executed (class not-run-after-timeouts)", "wall-clock time and resident memory are runtime facts measured on the sampled inputs only"},
 		Eval:   c13Eval, Gen: c13Gen,
 	})
